@@ -10,7 +10,7 @@ import (
 
 type DirEntry struct {
 	Name string `json:"name"`
-	Kind string `json:"kind"` // file | dir | symlink
+	Kind string `json:"kind"` // file | dir | symlink | dangling (symlink without target) | fifo | socket
 }
 
 type InitParams struct {
